@@ -80,6 +80,8 @@ package interp
 // behind, which an enclosing assignment would otherwise store).
 //@ func assign
 //@   requires yylex is *lexer && yylex.(*lexer) != nil && yylex.(*lexer).env != nil
+//@   requires !locked(yylex.(*lexer).mu)
+//@   ensures mutex-released: !locked(yylex.(*lexer).mu)
 //@   site STORE = call interp.(*ExecEnv).Set
 //@   ensures[C11 C20] no-assignment-after-an-error: old(yylex.(*lexer).err) != nil ==> !site(STORE)
 //@   ensures[C11 C20] stores-the-decimal-value-under-the-name: old(yylex.(*lexer).err) == nil ==> site(STORE) && sitearg(STORE, 1) == name && sitearg(STORE, 2) == itoa(n)
